@@ -57,12 +57,15 @@ def check(ctx):
     ctx.rule("C09-R2", "GUARD-DOM: every dispatch in KGFnWrapper.__call__ is dominated by a comparison of len(args) with the arity of the very function dispatched, whose failing arm raises")
     ctx.rule("C09-R3", "call-time resolution: the function dispatched on the symbol path is loaded from the interpreter context inside __call__; a missing symbol falls back to the stored function; the symbol is bound eagerly in __init__ and written nowhere else; at most one dispatch per call even if the dispatched call raises")
     ctx.rule("C09-R4", "pass-through: set_context_var wraps exactly the callables that are not already KGLambda and stores every other value as given; __getitem__ returns non-function values as stored; __setitem__/__delitem__ invalidate the compile memo")
+    ctx.rule("C09-R6", "signature inspection is a function of the callable alone: the helpers that derive parameter lists / arity from a Python callable write no module-level or shared state (no memo keyed by anything but the callable's own identity)")
+    ctx.rule("C09-R7", "admission agrees with dispatch: the classes _resolve_fn accepts as a function value for a parameter symbol (x, y, z) include every class _eval_fn can invoke")
     ctx.rule("C09-R5", "wildcard argument collection is used only for callables without required positional parameters (or with *args)")
 
     _r1(ctx, repo)
     _r2_r3(ctx, repo)
     _r4(ctx, repo)
     _r5(ctx, repo)
+    _r6_r7(ctx, repo)
 
 
 def _r1(ctx, repo):
@@ -211,6 +214,82 @@ def _r2_r3(ctx, repo):
         v = in_init[0]._parent.value
         ok = "sym" in names_in(v) and any(isinstance(c, ast.Call) and callee_name(c) == "_find_symbol" for c in ast.walk(v))
         ctx.ob("C09-R3", init.fq, "the symbol is the one given by the creator, else the one the function is bound to now", ok, node=in_init[0]._parent, construct="_sym = sym or search")
+        # the given name has priority over the identity search (a function bound under two names keeps the name it was read through)
+        symp = next((p for p in init.params() if p not in ("self",) and p in names_in(v) and p != "fn"), None)
+        is_search = lambda e: any(isinstance(c, ast.Call) and callee_name(c) == "_find_symbol" for c in ast.walk(e))
+        pri = False
+        if isinstance(v, ast.IfExp):
+            pri = isinstance(v.body, ast.Name) and v.body.id == symp and is_search(v.orelse) and not is_search(v.test) and not is_search(v.body)
+            pri = pri or (isinstance(v.orelse, ast.Name) and v.orelse.id == symp and is_search(v.body) and isinstance(v.test, ast.Compare) and
+                          isinstance(v.test.ops[0], ast.Is) and src(v.test.left) == symp)          # `search if sym is None else sym`
+        elif isinstance(v, ast.BoolOp) and isinstance(v.op, ast.Or):
+            pri = isinstance(v.values[0], ast.Name) and v.values[0].id == symp and all(is_search(x) for x in v.values[1:])
+        ctx.ob("C09-R3", init.fq, "the name given by the creator has priority over the identity search", pri or not ok, node=in_init[0]._parent, construct="given symbol has priority",
+               msg="the wrapper prefers the first symbol bound to the same function object over the name it was read through: with two names bound to one function (g::f) klong['g'] follows later redefinitions of f, not of g")
+
+
+def _r6_r7(ctx, repo):
+    # ---- R6: no shared state written by the inspection helpers
+    tm = repo.module("types")
+    helpers = [f for f in tm.funcs.values() if f.parent is None and (
+        (f.cls is None and any((dotted(c.func) or "").startswith("inspect.") for c in calls_in(f.node))) or
+        (f.cls == "KGLambda" and f.name in ("__init__", "_get_pos_args", "get_arity")))]
+    ctx.floor("C09-R6", "signature-inspection helpers", len(helpers), 2)
+    for f in helpers:
+        ctx.instance("C09-R6", f.fq)
+        params = set(f.params())
+        local = set(params)
+        for n in walk_local(f.node):
+            if isinstance(n, ast.Name) and isinstance(n.ctx, ast.Store):
+                local.add(n.id)
+        glob = {x for n in walk_local(f.node) if isinstance(n, (ast.Global, ast.Nonlocal)) for x in n.names}
+        bad = []
+        for n in walk_local(f.node):
+            tgts = []
+            if isinstance(n, ast.Assign):
+                tgts = n.targets
+            elif isinstance(n, (ast.AugAssign, ast.AnnAssign)):
+                tgts = [n.target]
+            for t in tgts:
+                base = t
+                while isinstance(base, (ast.Subscript, ast.Attribute)):
+                    base = base.value
+                if isinstance(base, ast.Name) and ((base.id not in local and t is not base) or base.id in glob):
+                    bad.append(t)
+            if isinstance(n, ast.Call) and isinstance(n.func, ast.Attribute) and n.func.attr in ("setdefault", "update", "append", "add", "__setitem__"):
+                base = n.func.value
+                while isinstance(base, (ast.Subscript, ast.Attribute)):
+                    base = base.value
+                if isinstance(base, ast.Name) and base.id not in local:
+                    bad.append(n)
+        deco = [d for d in f.node.decorator_list if "cache" in src(d)]
+        ctx.ob("C09-R6", f.fq, "writes only its own locals / the object under construction", not bad and not deco, node=(bad[0] if bad else f.node),
+               construct=f"shared state written by {f.name}" + (f": {src(bad[0])[:40]}" if bad else (f": @{src(deco[0])}" if deco else "")),
+               msg=f"{f.name} records what it learned about one callable in shared state ({src(bad[0])[:60] if bad else src(deco[0]) if deco else ''}): callables that look alike to the memo key (same code object, e.g. every function produced by one decorator) get each other's parameter list and are called with the wrong arguments")
+    # ---- R7
+    rf = repo.fn("interpreter:KlongInterpreter._resolve_fn")
+    ef = repo.fn("interpreter:KlongInterpreter._eval_fn")
+    ctx.instance("C09-R7", rf.fq)
+
+    def classes(test_call):
+        a = test_call.args[1]
+        return {dotted(e) for e in (a.elts if isinstance(a, ast.Tuple) else [a])}
+    looked = {n.targets[0].id for n in walk_local(rf.node) if isinstance(n, ast.Assign) and isinstance(n.targets[0], ast.Name) and
+              isinstance(n.value, ast.Subscript) and "_context" in src(n.value.value)}
+    admit = set()
+    for c in calls_in(rf.node):
+        if callee_name(c) in ("isinstance", "issubclass") and len(c.args) == 2 and any(isinstance(x, ast.Name) and x.id in looked for x in ast.walk(c.args[0])):
+            admit |= classes(c)
+    invoke = set()
+    for c in calls_in(ef.node):
+        if callee_name(c) in ("isinstance", "issubclass") and len(c.args) == 2:
+            # only tests that choose how the resolved function is invoked (they dominate a call of it / of self.call)
+            par = getattr(c, "_parent", None)
+            if isinstance(par, ast.IfExp) and isinstance(getattr(par, "_parent", None), ast.Return):
+                invoke |= classes(c)
+    ctx.ob("C09-R7", rf.fq, f"classes admitted as a function value for x/y/z {sorted(admit)} include the classes _eval_fn invokes specially {sorted(invoke)} and KGFn",
+           bool(admit) and bool(invoke) and (invoke | {"KGFn"}) <= admit, node=rf.node, construct="function-value classes admitted for parameter symbols",
+           msg=f"_resolve_fn treats the value of x/y/z as a function only if it is one of {sorted(admit)}, but _eval_fn can invoke {sorted(invoke | {'KGFn'})}: a Python callable passed as an argument and applied through x(...) is never called (the argument is returned instead)")
 
 
 def _r4(ctx, repo):
@@ -316,6 +395,11 @@ MUTATION_SCOPE = ['types:KGLambda.__init__',
                   'interpreter:KlongInterpreter.__delitem__']
 
 SEEDS = [
+    Seed("found-symbol-first", "fault", "types", "        self._sym = sym if sym is not None else self._find_symbol(fn)", "        self._sym = self._find_symbol(fn) or sym", rule="C09-R3"),
+    Seed("refactor-sym-or-search", "refactor", "types", "        self._sym = sym if sym is not None else self._find_symbol(fn)", "        self._sym = sym or self._find_symbol(fn)"),
+    Seed("inspect-memo-by-code", "fault", "types", "def safe_inspect(fn, follow_wrapped=True):\n    try:\n        return inspect.signature(fn, follow_wrapped=follow_wrapped).parameters",
+         "_SIG = {}\n\n\ndef safe_inspect(fn, follow_wrapped=True):\n    k = getattr(fn, '__code__', None)\n    if k in _SIG:\n        return _SIG[k]\n    try:\n        _SIG[k] = inspect.signature(fn, follow_wrapped=follow_wrapped).parameters\n        return _SIG[k]", rule="C09-R6"),
+    Seed("resolve-drops-lambda", "fault", "interpreter", "                if isinstance(_f, (KGFn,KGLambda)) or not in_map(f, reserved_fn_symbols):", "                if isinstance(_f, KGFn) or not in_map(f, reserved_fn_symbols):", rule="C09-R7"),
     Seed("probe-call", "fault", "types", "        pos_args = self._get_pos_args(ctx)\n        return self.fn(klong, *pos_args) if self._provide_klong else self.fn(*pos_args)\n\n    def call_with_kwargs",
          "        pos_args = self._get_pos_args(ctx)\n        if self._provide_klong:\n            self.fn(klong, *pos_args)\n        return self.fn(klong, *pos_args) if self._provide_klong else self.fn(*pos_args)\n\n    def call_with_kwargs", rule="C09-R1"),
     Seed("result-converted", "fault", "types", "        return self.fn(klong, *pos_args, **kwargs) if self._provide_klong else self.fn(*pos_args, **kwargs)",
